@@ -16,7 +16,7 @@ theorem Name_PackLen_translated (n : Name) : Translated.Name_PackLen n.length = 
 
 /-- `Header.Pack` (bits), for opcode / rcode in their 4-bit range -/
 theorem Header_Pack_translated (h : Header) (ho : h.opcode < 16) (hr : h.rcode < 16) :
-    Translated.Header_Pack_bits h.id h.opcode h.rcode h.ra h.rd h.truncated h.authoritative h.response h.ad h.cd
+    Translated.Header_Pack_bits h.id h.opcode h.rcode h.ra h.rd h.truncated h.authoritative h.response h.z h.ad h.cd
       = bitsOfHeader h := by
   have e1 : h.opcode % 65536 = h.opcode := Nat.mod_eq_of_lt (by omega)
   have e2 : h.rcode % 65536 = h.rcode := Nat.mod_eq_of_lt (by omega)
@@ -25,7 +25,7 @@ theorem Header_Pack_translated (h : Header) (ho : h.opcode < 16) (hr : h.rcode <
   unfold Translated.Header_Pack_bits bitsOfHeader
   simp only [e1, e2, e3, e4, Id.run]
   cases h.ra <;> cases h.rd <;> cases h.truncated <;> cases h.authoritative <;> cases h.response <;>
-    cases h.ad <;> cases h.cd <;> rfl
+    cases h.z <;> cases h.ad <;> cases h.cd <;> rfl
 
 /-- the "minimum 512" clamp at the top of `Msg.Pack` -/
 theorem Pack_sizeClamp_translated (size : Nat) :
